@@ -19,6 +19,7 @@ pub enum Seed {
     Csnap { bag: Bag, kinds: Vec<u8> },
     Frame { variant: u16, bag: Bag, cfg: u8 },
     Wal { case: rt::WalCase },
+    SnapV3 { bag: Bag, n: u8, compressed: bool },
     Raw { target: u8, bytes: Vec<u8> },
 }
 
@@ -50,6 +51,7 @@ impl Seed {
             Seed::Csnap { .. } => "csnap",
             Seed::Frame { .. } => "frame",
             Seed::Wal { .. } => "wal",
+            Seed::SnapV3 { .. } => "snapv3",
             Seed::Raw { target, .. } => TARGETS[usize::from(*target) % TARGETS.len()],
         }
     }
@@ -98,6 +100,7 @@ impl Seed {
                 out.extend_from_slice(&bytes);
                 (out, 1)
             },
+            Seed::SnapV3 { bag, n, compressed } => (rt::snapv3_bytes(bag, *n, *compressed).0, 0),
             Seed::Raw { target, bytes } => {
                 let t = TARGETS[usize::from(*target) % TARGETS.len()];
                 (bytes.clone(), usize::from(t == "frame" || t == "wal").min(bytes.len()))
@@ -233,7 +236,8 @@ pub fn seed_strategy() -> BoxedStrategy<Seed> {
         4 => (strat::bag(), proptest::collection::vec(any::<u8>(), 1..9)).prop_map(|(bag, kinds)| Seed::Csnap { bag, kinds }),
         5 => (any::<u16>(), strat::bag(), any::<u8>()).prop_map(|(variant, bag, cfg)| Seed::Frame { variant, bag, cfg }),
         5 => rt::wal_strategy(Tier::Quick).prop_map(|case| Seed::Wal { case }),
-        1 => (0u8..5, proptest::collection::vec(any::<u8>(), 0..200)).prop_map(|(target, bytes)| Seed::Raw { target, bytes }),
+        1 => (strat::bag(), 0u8..5, any::<bool>()).prop_map(|(bag, n, compressed)| Seed::SnapV3 { bag, n, compressed }),
+        1 => (0u8..6, proptest::collection::vec(any::<u8>(), 0..200)).prop_map(|(target, bytes)| Seed::Raw { target, bytes }),
     ]
     .boxed()
 }
@@ -333,7 +337,7 @@ pub fn gen_corpus(_args: &[String]) -> i32 {
         }
         let t = seed.target();
         let (mut bytes, keep) = seed.encode();
-        if bytes.len() > 400 || bytes.len() <= keep + 1 {
+        if bytes.len() > if t == "snapv3" { 900 } else { 400 } || bytes.len() <= keep + 1 {
             continue;
         }
         let e = per_target.entry(t).or_insert((0, 0));
@@ -362,6 +366,9 @@ pub fn gen_corpus(_args: &[String]) -> i32 {
         ("wal", &[0x00]),
         ("wal", &[0x01, 0xff, 0xff, 0xff, 0xff, 0, 0, 0, 0]),
         ("csnap", &[]),
+        ("snapv3", b"NEUM\x03\x00\x00\x00\x00\x00\x00\x00\x00\x00\x00\x00\x00\x00\x00\x00"),
+        ("snapv3", b"NEUM\x03\x00\x00\x00\x01\x00\x00\x00\x00\x00\x00\x00\x00\x00\x00\x00\x28\xb5\x2f\xfd"),
+        ("snapv3", b"NEUM\x04\x00\x00\x00"),
     ];
     for (t, b) in extra {
         std::fs::write(dir.join(t).join(format!("hand-{:016x}", nv_engine::fnv64(b))), b).expect("write corpus file");
@@ -456,11 +463,19 @@ pub fn corpus_part() -> CustomPart {
                         };
                         run(b, "seed", &mut st);
                         for cut in keep..b.len() {
+                            if *t == "snapv3" && cut > 24 && cut % 4 != 0 {
+                                continue;
+                            }
                             run(&b[..cut], "truncation", &mut st);
                         }
                         let mut m = b.clone();
                         for pos in keep..b.len() {
                             for bit in 0..8 {
+                                // restoring a router is expensive: beyond the 20-byte header of a
+                                // snapshot file only one bit per byte is flipped
+                                if *t == "snapv3" && pos >= 20 && bit != pos % 8 {
+                                    continue;
+                                }
                                 m[pos] ^= 1 << bit;
                                 run(&m, "bitflip", &mut st);
                                 m[pos] ^= 1 << bit;
